@@ -60,6 +60,7 @@ Definition add_wfb (o : op) : bool :=
   match o with
   | Block _ _ => true
   | Add ct ch a => wfb ct (added ct ch a)
+  | Init _ ct ch gs => forallb (fun a => wfb ct (added ct ch a)) gs
   end.
 
 Definition first_time (ops : list op) : Z := match ops with [] => 0 | o :: _ => op_time o end.
@@ -73,12 +74,16 @@ Fixpoint nodupb (l : list nat) : bool :=
   match l with [] => true | x :: r => negb (existsb (Nat.eqb x) r) && nodupb r end.
 Definition keys_ok (o : obs) : bool := list_eqb Nat.eqb (b_keys o) (ids (b_infos o)) && nodupb (b_keys o).
 
-(** stored infos = initial ones + accepted additions *)
+(** stored infos = initial ones + accepted additions; an InitGenesis with k definitions adds between 0 and k infos
+    (all k when the function reports success) and never removes one *)
 Fixpoint count_ok (n : nat) (tr : list (op * obs)) : bool :=
   match tr with
   | [] => true
+  | (Init via _ _ gs, x) :: r =>
+      let m := length (b_infos x) in
+      Nat.leb n m && Nat.leb m (n + length gs) && (via || negb (b_ok x) || Nat.eqb m (n + length gs)) && count_ok m r
   | (o, x) :: r =>
-      let n' := match o with Add _ _ _ => if b_ok x then S n else n | Block _ _ => n end in
+      let n' := match o with Add _ _ _ => if b_ok x then S n else n | _ => n end in
       Nat.eqb (length (b_infos x)) n' && count_ok n' r
   end.
 
